@@ -671,8 +671,12 @@ def prod_judge(inp, res):
             return {"kind": "closure"}
         return None
     if kind == "assoc":
-        if r[0] != r[1] or r[0].startswith("!"):
-            return {"kind": "associativity", "got": r}
+        # the inner sums are formed by the reference (reduced); with infinite operands the implementation returns the
+        # other operand as given, so the two sides are compared as group elements
+        P, Q, R = [tuple(v) if v else None for v in (inp["P"], inp["Q"], inp["R"])]
+        want = ref_add(p, a, ref_add(p, a, P, Q), R)
+        if not same_elt(p, r[0], want) or not same_elt(p, r[1], want):
+            return {"kind": "associativity", "got": r, "want": cpt(want)}
         return None
     if kind == "mul":
         P, k = inp["P"], inp["k"]
